@@ -156,15 +156,15 @@ func vGenAccProgram(r vh.R, c *vHC) vAccProgram {
 }
 
 type vAccRun struct {
-	res        Psi_A_ReturnType
-	initProj   map[string]string
-	ckptProj   map[string]string // projection at the most recent checkpoint (nil: none)
-	lastX      map[string]string
-	hostCalls  int
+	res         Psi_A_ReturnType
+	initProj    map[string]string
+	ckptProj    map[string]string // projection at the most recent checkpoint (nil: none)
+	lastX       map[string]string
+	hostCalls   int
 	checkpoints int
-	lastExit   ExitReason
-	goPanic    string
-	stack      string
+	lastExit    ExitReason
+	goPanic     string
+	stack       string
 }
 
 // vRunAcc runs Psi_A on a context regenerated from seed material, with the global accumulate table
